@@ -224,7 +224,10 @@ def get_cauchy_point(
             nseg, f_prime, f_second, delta_t, delta_t_min, iprint, logger
         )
 
-        if delta_t_min < delta_t:
+        # delta_t == 0 means that this breakpoint is tied with the previous one: the
+        # derivatives do not describe a segment of the path until all tied variables
+        # have been fixed, hence no test in between.
+        if delta_t > 0 and delta_t_min < delta_t:
             is_gpc_found = True
             break
 
